@@ -5,6 +5,7 @@ import (
 	"fmt"
 	"os"
 	"strings"
+	"sync"
 
 	parser "github.com/shivasurya/code-pathfinder/sourcecode-parser/antlr"
 	"github.com/shivasurya/code-pathfinder/sourcecode-parser/cmd"
@@ -146,3 +147,45 @@ func cmdQueries(args []string) int {
 	fmt.Fprintf(out, "DONE\n")
 	return 0
 }
+
+// init-dump-mutate <dir> <out> <plan>: like init-dump, but files change on disk at the moment a worker is about to read
+// them (between discovery and reading).  Plan lines: "<hex path> rewrite <hex content>" | "<hex path> remove".
+func cmdInitDumpMutate(args []string) int {
+	plan := map[string][]string{}
+	pf, err := os.Open(args[2])
+	if err != nil {
+		fmt.Fprintln(os.Stderr, err)
+		return 2
+	}
+	sc := bufio.NewScanner(pf)
+	sc.Buffer(make([]byte, 0, 1<<20), 1<<30)
+	for sc.Scan() {
+		f := strings.Fields(sc.Text())
+		if len(f) >= 2 {
+			p, _ := hexDecode(f[0])
+			plan[string(p)] = f[1:]
+		}
+	}
+	pf.Close()
+	var mu sync.Mutex
+	graph.VerifBeforeFile = func(path string) {
+		mu.Lock()
+		defer mu.Unlock()
+		act, ok := plan[path]
+		if !ok {
+			return
+		}
+		delete(plan, path)
+		switch act[0] {
+		case "rewrite":
+			c, _ := hexDecode(act[1])
+			_ = os.WriteFile(path, c, 0o644)
+		case "remove":
+			_ = os.Remove(path)
+		}
+	}
+	defer func() { graph.VerifBeforeFile = nil }()
+	return cmdInitDump(args[:2])
+}
+
+func init() { commands["init-dump-mutate"] = cmdInitDumpMutate }
